@@ -249,6 +249,10 @@ func (p *Element) SetBytesUncompressed(buf []byte, trusted bool) error {
 	var y fp.Element
 	// point in curve & subgroup check
 	if !trusted {
+		// x must be a canonical field encoding (x and x+p are not the same input)
+		if err := x.SetBytesCanonical(buf[:coordinateSize]); err != nil {
+			return fmt.Errorf("invalid uncompressed point: %s", err)
+		}
 		point := bandersnatch.GetPointFromX(&x, true)
 		if point == nil {
 			return fmt.Errorf("point not in the curve")
